@@ -34,6 +34,24 @@ def real_calls_chunk(items):
     record_opt.install()
     out = []
     for it in items:
+        if "adapter" in it:
+            # adapted user functions: the traced graph carries assertions on the function's output; whatever the optimiser
+            # does with such a graph (e.g. inlining a wrapper) is recorded and validated like every other rewrite
+            recs = []
+            x, y = np.arange(6.0).reshape(2, 3), np.arange(6.0).reshape(2, 3) + 1
+            fe = einx.numpy.adapt_numpylike_elementwise(lambda a, b: a * 2 + b)
+            fr = einx.numpy.adapt_numpylike_reduce(np.sum)
+            for desc, f, args in [("a b, a b", fe, (x, y)), ("a b, a b -> a b", fe, (x, y)), ("a b, b a -> a b", fe, (x, y.T)), ("a b, b -> a b", fe, (x, y[0])),
+                                  ("a [b]", fr, (x,)), ("[a] b -> b", fr, (x,))]:
+                try:
+                    f(desc, *args, graph=True)
+                except Exception:
+                    pass
+                for r in record_opt.drain():
+                    r["meta"] = {"desc": desc, "op": "adapter", "backend": "numpy"}
+                    recs.append(r)
+            out.append(recs)
+            continue
         case, op = it["case"], it["op"]
         rng = np.random.default_rng(it["seed"])
         ins = DC.probe_inputs(case, op, rng)
@@ -90,6 +108,94 @@ def synthetic_chunk(items):
             r["meta"] = {"synthetic": it, "code_before": c0, "code_after": c1}
         out.append({"recs": recs, "same": bool(same), "code_before": c0, "code_after": c1})
     return out
+
+
+IN_SHAPES = [[2, 3], [3], [2, 2], [2, 2]]
+SHAPE_POOL = [[6], [3, 2], [2, 3], [1, 3], [3], [3, 3], [2, 2, 2], [2, 2], [4], [2, 1, 3], [1, 2, 2]]
+
+
+def optterms(rep, tier):
+    """OptTerms.tla: TLC builds every movement term up to the depth bound, checks rule soundness and the termination measure
+    on all of its rewrites, and exports it with its meaning"""
+    import hashlib
+    import drive_opt
+    depth = 2 if tier == "quick" else 3
+    cdir = os.path.join(common.VERIF, ".work", "cache")
+    os.makedirs(cdir, exist_ok=True)
+    with open(os.path.join(SPEC, "OptTerms.tla"), "rb") as f1, open(os.path.join(SPEC, "Optimize.tla"), "rb") as f2:
+        key = hashlib.sha1(f1.read() + f2.read() + json.dumps([IN_SHAPES, SHAPE_POOL, depth]).encode()).hexdigest()[:20]
+    cpath = os.path.join(cdir, "optterms_%s.json" % key)
+    d = common.workdir("c05ot")
+    nsh = 1 if depth == 2 else 16
+    with open(os.path.join(d, "MC_OT.tla"), "w") as f:
+        f.write("---- MODULE MC_OT ----\nEXTENDS OptTerms\nMCIn == %s\nMCPool == {%s}\n====\n" % (common.tla_expr(IN_SHAPES), ", ".join(common.tla_expr(x) for x in SHAPE_POOL)))
+
+    def cfg(name, shard, extra):
+        path = os.path.join(d, name + ".cfg")
+        with open(path, "w") as f:
+            f.write("\n".join(["SPECIFICATION Spec", "CONSTANTS", "  Rank = 1", "  TestShapes = {}", "  InShapes <- MCIn", "  ShapePool <- MCPool", "  MaxDepth = %d" % depth,
+                               "  MaxElems = 12", "  Shard = %d" % shard, "  NShards = %d" % nsh] + extra + ["CHECK_DEADLOCK FALSE"]) + "\n")
+        return path
+    # vacuity guard: TLC must refute that a rank-increasing broadcast with matching leading dimensions is a no-op
+    res = common.run_tlc(os.path.join(d, "MC_OT.tla"), cfg("vac", 0, ["INVARIANT RankIncreasingBroadcastIsNop"]), workers=4, timeout=900)
+    if res.violated != "RankIncreasingBroadcastIsNop":
+        raise common.MachineryError("vacuity guard not refuted on OptTerms.tla\n" + res.out[-1500:])
+    rep.extra["optterms_vacuity_guard_refuted"] = True
+    if os.path.exists(cpath) and not os.environ.get("VERIF_NO_CACHE"):
+        with open(cpath) as f:
+            dd = json.load(f)
+        for r in dd["tlc_runs"]:
+            rep.tlc_runs.append(dict(r, cached=True))
+            rep.states += r.get("distinct_states", 0)
+            rep.transitions += r.get("states_generated", 0)
+        terms = dd["terms"]
+    else:
+        import concurrent.futures as cf
+        n0 = len(rep.tlc_runs)
+        terms = []
+
+        def one(sh):
+            return common.run_tlc(os.path.join(d, "MC_OT.tla"), cfg("ot_%d" % sh, sh, ["CONSTRAINT Emit", "INVARIANT C05_RulesSoundHere", "PROPERTY C05_Measure"]),
+                                  workers=max(1, 16 // nsh), timeout=3000)
+        bad = False
+        with cf.ThreadPoolExecutor(nsh) as ex:
+            for sh, res in enumerate(ex.map(one, range(nsh))):
+                if sh == 0:
+                    rep.add_tlc("OptTerms.tla depth <= %d (shard 0 of %d; every shard explores all terms and rewrites)" % (depth, nsh), res)
+                if res.violated:
+                    bad = True
+                    rep.violation({"kind": "model", "invariant": res.violated}, {}, "TLC: %s violated on OptTerms.tla\n%s" % (res.violated, res.counterexample()[:2500]))
+                elif res.error or res.rc != 0:
+                    raise common.MachineryError("OptTerms.tla shard %d failed\n%s" % (sh, res.out[-2000:]))
+                terms.extend(res.printed("OT"))
+        if not bad:
+            tmp = cpath + ".%d.tmp" % os.getpid()
+            with open(tmp, "w") as f:
+                json.dump({"terms": terms, "tlc_runs": rep.tlc_runs[n0:]}, f)
+            os.replace(tmp, cpath)
+    rep.extra["optterms"] = {"terms": len(terms), "with_redex": sum(1 for t in terms if t["redexes"] > 0), "depth": depth}
+    if tier == "thorough" and len(terms) > 40000:
+        terms = terms[:: (len(terms) // 40000 + 1)]
+    items = [{"rec": t, "inshapes": IN_SHAPES} for t in terms]
+    results = common.parallel_map("run_chunk", drive_opt, items)
+    changed = 0
+    for it, r in zip(items, results):
+        rep.replayed += 1
+        rep.evaluations += 3
+        changed += bool(r["info"].get("changed"))
+        if it["rec"]["redexes"] > 0:
+            rep.nontriv(json.dumps(it["rec"]["term"]))
+        for f in r["findings"]:
+            if f["kind"] == "machinery":
+                raise common.MachineryError(f["detail"])
+            kinds = sorted({k for k in json.dumps(it["rec"]["term"]).replace('"', " ").split() if k in ("T", "R", "B", "C", "sub")})
+            rep.violation({"kind": f["kind"], "where": "OptTerms.tla term", "root": it["rec"]["term"]["k"], "node_kinds": kinds},
+                          {"optterm": it["rec"], "inshapes": IN_SHAPES},
+                          "%s: %s\n--- unoptimised:\n%s\n--- optimised:\n%s" % (drive_opt.describe(it["rec"]["term"]), f["detail"], r["info"].get("code_before", "")[:500], r["info"].get("code_after", "")[:500]))
+    rep.extra["optterms"]["changed_by_real_optimiser"] = changed
+    if terms:
+        t = terms[len(terms) // 2]
+        rep.sample({"term": drive_opt.describe(t["term"]), "shape": t["shape"], "meaning_first_positions": t["sem"][:3], "redexes": t["redexes"]})
 
 
 def validate(rep, recs, rank):
@@ -159,6 +265,8 @@ def run(tier):
         if not r["same"]:
             rep.violation({"kind": "optimised-graph-differs", "variant": it["variant"]}, {"synthetic": it, "code_before": r["code_before"], "code_after": r["code_after"]},
                           "optimised and unoptimised graph disagree for shape %s, transpose %s then %s (%s):\n%s\n--- optimised:\n%s" % (it["shape"], it["p1"], it["p2"], it["variant"], r["code_before"], r["code_after"]))
+    # movement terms built by TLC (reshape / transpose / broadcast_to / concatenate / subtract, shared sub-terms, permuted wrapper arguments)
+    optterms(rep, tier)
     # real calls
     specs = corpus.quick_specs() if tier == "quick" else corpus.thorough_specs()
     cases = corpus.generate(rep, specs)
@@ -166,6 +274,7 @@ def run(tier):
         keep = {"elementwise": 16, "update_at": 30, "get_at": 10, "id": 6, "preserve": 4, "argfind": 4, "reduce": 2}
         cases = [c for i, c in enumerate(cases) if i % keep.get(c["fam"], 1) == 0]
     items = [{"case": c, "op": OPS[c["fam"]][i % len(OPS[c["fam"]])], "seed": i} for i, c in enumerate(cases)]
+    items.append({"adapter": True})
     for rr in common.parallel_map("real_calls_chunk", sys.modules[__name__], items):
         recs.extend(rr)
         rep.evaluations += 3
@@ -193,6 +302,14 @@ def run(tier):
 def replay(path):
     with open(path) as f:
         v = json.load(f)
+    if "optterm" in v["case"]:
+        import drive_opt
+        f, info = drive_opt.run_term(v["case"]["optterm"], v["case"]["inshapes"])
+        print(drive_opt.describe(v["case"]["optterm"]["term"]), f)
+        if f:
+            print("VIOLATION property=C05 replay=%s" % path)
+            return 1
+        return 0
     if "synthetic" in v["case"]:
         r = synthetic_chunk([v["case"]["synthetic"]])[0]
         print(r["same"], r["code_after"])
